@@ -329,6 +329,78 @@ func rsemScenario(c *Ctx, sh *shard, scen int) {
 			merged = true
 		}
 	}
+	// an external writer using the public format helpers: row data blocks without filter sections,
+	// footer through WriteFileFooter with absent file-level filters (absent filters cannot disqualify)
+	external := false
+	if !useFS && c.chance(0.3) {
+		external = true
+		nExt := 2 + c.intn(6)
+		byPart := map[string][]*e2eRow{}
+		for i := 0; i < nExt; i++ {
+			m := c.genRow()
+			id := len(rows)
+			m["_id"] = id
+			tr := &typedRow{id: id, row: m, vals: map[string]numVal{}}
+			delete(m, "p")
+			delete(m, "n")
+			if usePartition {
+				tr.partition = partitionPool[c.intn(4)]
+				m["p"] = tr.partition
+			}
+			if c.chance(0.7) {
+				nv := c.genNum()
+				for !nv.jsonOK {
+					nv = c.genNum()
+				}
+				m["n"] = nv.v
+				tr.vals["n"] = nv
+			}
+			r := &e2eRow{id: id, tr: tr}
+			rows = append(rows, r)
+			byPart[tr.partition] = append(byPart[tr.partition], r)
+		}
+		mem := data.(*memDataStore)
+		w, ptr, err := mem.CreateFile(ctx)
+		must(err)
+		fm := bs.FileMetadata{BloomFalsePositiveRate: cfg.BloomFalsePositiveRate}
+		off := 0
+		for _, part := range sortedKeys(byPart) {
+			var buf []byte
+			mm := map[string]bs.MinMaxIndex{}
+			for _, r := range byPart[part] {
+				rb, err := json.Marshal(r.tr.row)
+				must(err)
+				buf = append(buf, byte(len(rb)), byte(len(rb)>>8), byte(len(rb)>>16), byte(len(rb)>>24))
+				buf = append(buf, rb...)
+				if v, ok := r.tr.row["n"]; ok {
+					if lo, hi, isNum := bs.ConvertToMinMaxInt64(v); isNum {
+						if idx, has := mm["n"]; has {
+							mm["n"] = bs.UpdateMinMaxIndex(idx, lo, hi)
+						} else {
+							mm["n"] = bs.MinMaxIndex{Min: lo, Max: hi}
+						}
+					}
+				}
+			}
+			_, err := w.Write(buf)
+			must(err)
+			fm.DataBlocks = append(fm.DataBlocks, bs.DataBlockMetadata{RowDataOffset: off, RowDataSize: len(buf), Rows: len(byPart[part]),
+				MinMaxIndexes: mm, PartitionID: part, Compression: bs.CompressionNone, UncompressedSize: len(buf)})
+			off += len(buf)
+		}
+		fm.BlockFilterRegionOffset, fm.BlockFilterRegionSize = off, 0
+		must(bs.WriteFileFooter(w, &fm))
+		must(w.Close())
+		must(meta.Update(ctx, []bs.WriteOperation{{FileMetadata: &fm, FilePointerBytes: ptr}}, nil))
+		if c.chance(0.5) { // the engine merges externally written files too
+			if _, err := eng.Merge(ctx); err != nil {
+				c.violation("e2e-merge-error", "Merge failed over an externally written file: "+err.Error(), nil)
+			} else {
+				merged = true
+			}
+		}
+	}
+	c.dist("e2e_external_file", fmt.Sprint(external))
 	c.dist("e2e_scenario", fmt.Sprintf("fs=%v merged=%v partition=%v tok=%s comp=%s fpr=%v", useFS, merged, usePartition, tk.name, cfg.RowDataCompression, cfg.BloomFalsePositiveRate))
 
 	// observe the layout through the public helpers
